@@ -160,6 +160,111 @@ def suite_rowapp(ctx):
                 ctx.count("rowapp.overflow" if overflow else "rowapp.fits")
 
 
+def _read_histories(ctx, r):
+    """histories of a RowAppendableArray: a list of ops, ('a', n) = append a row block of n lines, ('r',) = read with to_array().
+    Every history starts with an append (before the first one the array has no row shape yet) and ends with a read."""
+    out = []
+    # small scope: every sequence of <= 3 appends, 0, 1 or 2 reads after each append (at least one after the last)
+    for k in (1, 2, 3):
+        lens = [0, 1, 2, 3] if (k < 3 or not ctx.quick) else [0, 1, 3]
+        for seq in itertools.product(lens, repeat=k):
+            for reads in itertools.product((0, 1, 2), repeat=k):
+                if reads[-1] == 0:
+                    continue
+                h = []
+                for n, nr in zip(seq, reads):
+                    h.append(("a", n))
+                    h += [("r",)] * nr
+                out.append(h)
+    n_small = len(out)
+    # longer random histories
+    for _ in range(150 if ctx.quick else 1500):
+        h = []
+        for _ in range(r.randrange(2, 11)):
+            h.append(("a", r.choice([0, 1, 1, 2, 3, r.randrange(0, 13)])))
+            h += [("r",)] * r.choice([0, 0, 1, 1, 2])
+        if h[-1] != ("r",):
+            h.append(("r",))
+        out.append(h)
+    return out, n_small
+
+
+def suite_rowapp_reads(ctx):
+    """RowAppendableArray read in the middle of a history: after ANY sequence of appends (so also after each prefix of a longer one, and when
+    it has been read before) to_array() is the concatenation of the rows appended so far.  Reserved sizes 0, smaller than, equal to and larger
+    than the total; 1-D and 2-D rows; integer and float rows.  Oracle: np.concatenate of the blocks appended until the read."""
+    import random
+
+    from pyresample.utils.row_appendable_array import RowAppendableArray
+    r = random.Random(f"rowapp-reads-{ctx.seed}")
+    hists, n_small = _read_histories(ctx, r)
+    ctx.exhaustive["rowapp-reads"] = ("all sequences of <=3 appends of 0..3 lines (3 appends, quick tier: 0, 1, 3 lines) x 0..2 reads after each append "
+                                      "x reserved size {0, < total, = total, > total} x 1-D / 2-D rows")
+    for hi, h in enumerate(hists):
+        total = sum(op[1] for op in h if op[0] == "a")
+        if hi < n_small:
+            caps = sorted({0, max(0, total - 1), total // 2, total, total + 3})
+            shapes = [((), "int64"), ((2,), "int64")]
+        else:
+            caps = sorted({0, r.randrange(0, total + 1), total, total + r.randrange(1, 6), r.choice([64, 1000])})
+            caps = r.sample(caps, min(len(caps), 3))
+            shapes = [(r.choice([(), (), (1,), (2,), (3,), (2, 2)]), r.choice(["int64", "float64", "float32", "int16"]))]
+        for cap in caps:
+            for trailing, dtype in shapes:
+                first = r.randrange(1, 30) * 1000      # a different value range in every history
+                width = int(np.prod(trailing, dtype=int)) if trailing else 1
+                inp = {"capacity": cap, "row_shape": list(trailing), "dtype": dtype, "first_value": first,
+                       "history": ["append %d lines" % op[1] if op[0] == "a" else "to_array" for op in h],
+                       "values": "consecutive integers from first_value, block after block in C order"}
+                where = "zero" if cap == 0 else "smaller" if cap < total else "equal" if cap == total else "larger"
+                nxt = first
+                appended, keep = [], []
+                n_reads = 0
+                mid_read = False     # a read that is followed by a further append and a further read
+                ra = RowAppendableArray(cap)
+                for step, op in enumerate(h):
+                    if op[0] == "a":
+                        block = np.arange(nxt, nxt + op[1] * width).reshape((op[1],) + tuple(trailing)).astype(dtype)
+                        nxt += op[1] * width
+                        try:
+                            ra.append_row(block)
+                        except Exception as e:  # noqa
+                            ctx.fail("RowAppendableArray.append_row", f"raised {type(e).__name__}: {str(e)[:150]} at step {step} of the history (after {n_reads} reads)",
+                                     inp, {"step": step}, tags={"cause": "raises", "capacity": where, "reads_before": min(n_reads, 2)}, size=len(h))
+                            break
+                        appended.append(block)
+                        mid_read = mid_read or n_reads > 0
+                        continue
+                    want = np.concatenate(appended)
+                    try:
+                        got = ra.to_array()
+                    except Exception as e:  # noqa
+                        ctx.fail("RowAppendableArray.to_array", f"raised {type(e).__name__}: {str(e)[:150]} at step {step} of the history (read number {n_reads + 1})",
+                                 inp, {"step": step, "want": want.tolist()}, tags={"cause": "raises", "capacity": where, "reads_before": min(n_reads, 2)}, size=len(h))
+                        break
+                    n_reads += 1
+                    got = np.asarray(got)
+                    if got.shape != want.shape or not np.array_equal(got, want):
+                        ctx.fail("RowAppendableArray", f"to_array() number {n_reads} (step {step} of the history) differs from the concatenation of the rows appended so far",
+                                 inp, {"step": step, "got_shape": list(got.shape), "want_shape": list(want.shape), "got": got.tolist()[:40], "want": want.tolist()[:40]},
+                                 tags={"capacity": where, "reads_before": min(n_reads - 1, 2)}, size=len(h))
+                        break
+                    if ctx.M and not trailing and step == len(h) - 1 and (not ctx.quick or hi % 2 == 0):
+                        rep = ctx.M.ask("rowapp", cap, len(appended), *[[int(x) for x in b] for b in appended])
+                        if rep.split()[1:] != [str(int(x)) for x in got]:
+                            ctx.disagree("rowapp", {**inp, "read_at_step": step}, got.tolist(), rep.split()[1:])
+                    # the caller keeps what it was handed and goes on allocating, so that the outcome of the comparison does not hang on
+                    # which block the allocator happens to hand out next
+                    keep.append(got)
+                    if cap <= 2000:
+                        keep += [np.full((cap,) + tuple(trailing), -1, dtype=dtype) for _ in range(3)]
+                ctx.case("rowapp-reads", (cap, tuple(trailing), dtype, tuple(h)), nontrivial=mid_read and n_reads >= 2,
+                         sample={"input": inp} if hi % 97 == 0 else None)
+                ctx.count("rowapp_reads.capacity." + where)
+                ctx.count("rowapp_reads.reads.%s" % ("1" if n_reads <= 1 else "2-3" if n_reads <= 3 else "many"))
+                ctx.count("rowapp_reads.rows." + ("1d" if not trailing else "2d" if len(trailing) == 1 else "3d"))
+
+
 def _div_contract(start, stop, max_size, factor, res):
     """property oracle, straight from the statement"""
     s, e = res
@@ -455,3 +560,4 @@ def run(ctx):
     suite_divisible(ctx)
     suite_merge(ctx)
     suite_area_slices_divisible(ctx)
+    suite_rowapp_reads(ctx)
